@@ -18,6 +18,12 @@ func init() {
 				Old: "\tidx := sort.Search(len(s.lengths), func(i int) bool {\n\t\treturn s.lengths[i] > l\n\t}) - 1\n\tif idx < 0 {\n\t\tidx = 0\n\t}", New: "\tidx := sort.SearchFloat64s(s.lengths, l)\n\tif idx == len(s.segments) {\n\t\tidx -= 1\n\t}", Rule: "CUMTAB", Expect: "SegmentCurve"},
 			{Name: "area table built before the area is added", File: "render3d/light.go",
 				Old: "\t\tm.totalArea += t.Area()\n\t\tm.cumuAreas[i] = m.totalArea\n", New: "\t\tm.cumuAreas[i] = m.totalArea\n\t\tm.totalArea += t.Area()\n", Rule: "CUMTAB", Expect: "MeshAreaLight"},
+			{Name: "joined curve clamps only idx == len (defect repaired)", File: "model2d/curves.go",
+				Old: "\tif curveIdx >= len(j) {\n\t\tcurveIdx = len(j) - 1\n\t}", New: "\tif curveIdx == len(j) {\n\t\tcurveIdx--\n\t}", Rule: "IDX.FLOAT", Expect: "JoinedCurve"},
+			{Name: "typo in the degree-9 row of the binomial table", File: "model2d/curves.go",
+				Old: "{1, 9, 36, 84, 126, 126, 84, 36, 9, 1},", New: "{1, 9, 36, 84, 126, 162, 84, 36, 9, 1},", Rule: "PASCAL", Expect: "row 7"},
+			{Name: "fast path guard off by one", File: "model2d/curves.go",
+				Old: "} else if len(b)-2 < len(binomialCoeffs) {", New: "} else if len(b)-2 <= len(binomialCoeffs) {", Rule: "PASCAL", Expect: "guard"},
 			{Name: "angle reflected instead of shifted (defect repaired)", File: "toolbox3d/angles.go",
 				Old: "theta = math.Mod(theta+2*math.Pi, 2*math.Pi)", New: "theta = math.Mod(2*math.Pi-theta, 2*math.Pi)", Rule: "CONGRUENT", Expect: "CanonicalAngle"},
 		},
@@ -34,4 +40,8 @@ func runC17(c *Ctx) {
 	c.floor("BEST.NEG", 4)
 	c.runCongruent("CONGRUENT", pkgs, nil)
 	c.floor("CONGRUENT", 1)
+	c.runIdxFloat("IDX.FLOAT", pkgs, c.fileFilter("model2d/curves.go", "model2d/bezier_fit.go"))
+	c.floor("IDX.FLOAT", 1)
+	c.runPascal("PASCAL")
+	c.floor("PASCAL", 10)
 }
